@@ -6,7 +6,7 @@ CONFIG = dict(
              "operations and may tear the next data write at any byte): for the operation list that a Go->Lean extractor "
              "REGENERATES on every run from the body of file.SaveBinary (and file.IsWritable for the Service methods that probe "
              "the wallet file first), after a crash at ANY prefix and ANY tear point the saved file holds exactly its previous "
-             "or exactly the new content (crash_safe, crash_safe_probed), no other loader-visible file changes and the leftover "
+             "or exactly the new content (crash_safe, crash_safe_probed, crash_safe_create for files that do not exist yet), no other loader-visible file changes and the leftover "
              "temporary file is invisible to the wallet loader (tmp_invisible, crash_view), hence any start-up that succeeds on "
              "the old and on the new directory succeeds on every crash state (startup_ok, kv_crash_safe). Proved through a "
              "general soundness theorem for a decidable crash-safety checker, so the proof re-checks whatever sequence the "
@@ -36,7 +36,7 @@ CONFIG = dict(
         "rename(2), unlink(2), open(O_CREAT|O_TRUNC) are atomic; directory-entry durability is not modelled",
         "the wallet file exists before NewAddresses/ScanAddresses (it is the file the wallet was loaded from)",
     ],
-    rule="11 traced real saves per round (6 wallet scenarios, 2 kvstorage, 3 with a leftover torn temporary file); every "
+    rule="15 traced real saves per round (10 wallet scenarios incl. first-time creation of plain / encrypted / bip44-in-empty-dir / collection wallets, 2 kvstorage, 4 with a leftover torn temporary file); every "
          "prefix k of the traced operation list x tear points {0,1,n/2,n-1}+random (quick) / every byte (thorough); "
          "distinct = distinct (op,result) lines",
 )
